@@ -59,6 +59,27 @@ func c07Scenarios() []*Scenario {
 		sc.Name = "forbidden/legacy two connections of one host, ban 60 s"
 		out = append(out, sc)
 	}
+	// two misbehaving nodes with different headers at the checkpoint height: the second one arrives
+	// when the first is already stored at that height (equal work: it is classified STALE)
+	for _, initial := range [][]int{{}, {1, 2}} {
+		bs := tree(5, 0, 0)
+		bs = append(bs, BlockSpec{Parent: 2}, BlockSpec{Parent: 6}, BlockSpec{Parent: 2}, BlockSpec{Parent: 8})
+		sc := &Scenario{Engine: "legacy", Blocks: bs, Initial: initial, Checkpoints: []int{3}, BadBlock: 6, BadNode: 1, BadNodes: []int{2}, BadBlocks: []int{8}}
+		sc.Nodes = []NodeSpec{{Chain: seq(1, 5), Reliable: true}, {Chain: []int{1, 2, 6, 7}}, {Chain: []int{1, 2, 8, 9}}}
+		sc.Name = fmt.Sprintf("checkpoint/legacy two nodes with different headers at the checkpoint height initial=%v", initial)
+		out = append(out, sc)
+	}
+	// a heavy tip below the checkpoint height; the misbehaving node's lighter fork reaches the
+	// checkpoint height with less work (all of it STALE)
+	{
+		bs := tree(5, 0, 0)
+		bs[1].Bits = core.BitsHeavy
+		bs = append(bs, BlockSpec{Parent: 0}, BlockSpec{Parent: 6}, BlockSpec{Parent: 7})
+		sc := &Scenario{Engine: "legacy", Blocks: bs, Initial: []int{1}, Checkpoints: []int{3}, BadBlock: 8, BadNode: 1}
+		sc.Nodes = []NodeSpec{{Chain: seq(1, 5), Reliable: true}, {Chain: []int{6, 7, 8}}}
+		sc.Name = "checkpoint/legacy lighter fork reaches the checkpoint height below a heavy tip"
+		out = append(out, sc)
+	}
 	return out
 }
 
